@@ -1,8 +1,9 @@
 // c03_real.cpp — the TBB-parallel entry points of parmcb on the REAL oneTBB (no shim, -ltbb), with a chosen number of
 // workers.  Runtime sampling that supports the claim the shim-based check makes about all schedules; also the binary
 // that is run under ThreadSanitizer in the thorough tier (race clause of C03: runtime evidence only).
-//   R <alg> [k] <D|I> <scale> <workers> <graph>
+//   R <alg> [k] <D|I|L> <scale> <workers> <graph>
 //       alg = signed_tbb | fvs_tbb | iso_tbb | approx_signed_tbb k | approx_fvs_tbb k | approx_iso_tbb k
+//       D = double weights w*2^scale, I = int weights, L = long long weights (64-bit integers, values above 2^53 included)
 //   prints  RET w N n CYC (len ids)* [SEQRET w SEQN n]
 #include <tbb/tbb.h>
 #ifdef VERIF_FAKE_TBB
@@ -112,6 +113,9 @@ int main() {
         if (alg.compare(0, 7, "approx_") == 0) k = t.next_sz();
         std::string ty = t.next(); int scale = (int) t.next_ll();
         size_t workers = t.next_sz();
-        if (ty == "D") run_alg<DGraph>(alg, k, workers, t, scale, out); else run_alg<IGraph>(alg, k, workers, t, 0, out);
+        if (ty == "D") run_alg<DGraph>(alg, k, workers, t, scale, out);
+        else if (ty == "L") run_alg<LGraph>(alg, k, workers, t, 0, out);
+        else if (ty == "I") run_alg<IGraph>(alg, k, workers, t, 0, out);
+        else throw std::runtime_error("bad weight type");
     });
 }
